@@ -10,6 +10,7 @@ CONSTANTS
   HalvingInterval = 2
   MaxMoney = 30
   Horizon = 4
+  RulesOff = {}
   Known <- Known3
   Keys = {1}
   Miners = {1}
